@@ -602,3 +602,37 @@ def save_message_upsert(tier, oid='O11', prefix='O11'):
     ob.r.assumptions += ASSUMPTIONS
     ob.r.vacuity.append(f'{total} paths: {n_upd} re-saves, {n_new} inserts')
     return ob.done(cases=total)
+
+
+@guard
+def find_message_scoped(tier, oid='O13', prefix='O13'):
+    """memory find_message_by_event_id(g, id): the copy stored IN GROUP g, also when another group stores a message under the same event id"""
+    ob = Ob(oid, 'memory backend find_message_by_event_id(g, id) returns the message stored in group g (its own content / state / epoch), also when another group holds a different message '
+                 'under the same event id and that one was saved last; unknown group or id -> None', crates=CRATES, loop_bound=8)
+    f = ob.prog.find(MEM, 'messages::find_message_by_event_id')
+    G, H = Tok('g', 0), Tok('g', 1)
+    total = 0
+    X = eid(z3.BitVec('shared_id', 256))
+    for last in ('g', 'h'):
+        st = State()
+        m0, h0 = message('m0', G), message('h0', H)
+        m0.fields[MSG_FIELDS.index('id')] = X
+        h0.fields[MSG_FIELDS.index('id')] = X
+        caches = {'groups_cache': MapV([[G, group('g0', G)], [H, group('h0g', H)]], 'LruCache'),
+                  'messages_by_group_cache': MapV([[G, MapV([[X, m0]], 'HashMap')], [H, MapV([[X, h0]], 'HashMap')]], 'LruCache'),
+                  'messages_cache': MapV([[X, copy_msg(m0 if last == 'g' else h0)]], 'LruCache')}
+        sref = storage(st, caches)
+        for grp, want in ((G, m0), (H, h0)):
+            for p in ob.explore(f, [sref, Ref(st.temp(grp), ()), Ref(st.temp(X), ())], st.clone()):
+                total += 1
+                if p.kind == 'panic':
+                    ob.require(False, f'{prefix}/memory-find-message-panic', p.msg, p); continue
+                ok = vname(p.ret) == 'Ok' and vname(p.ret.fields[0]) == 'Some'
+                if not ob.require(ok, f'{prefix}/memory-find-message-missing', f'a stored message is not found ({srepr(p.ret)[:80]})', p):
+                    continue
+                got = M.deref_all(ob.eng, p.st, p.ret.fields[0].fields[0])
+                ob.require(srepr(got) == srepr(want), f'{prefix}/memory-find-message-other-groups-copy',
+                           f'find_message_by_event_id for group {grp} returns the copy of ANOTHER group that shares the event id (saved last: {last}): re-saving it (the own-echo confirmation) rewrites the other group\'s message', p)
+    ob.r.bounds = {'groups': 2, 'messages': 'one per group under the same symbolic event id', 'last saved': 'either'}
+    ob.r.assumptions += ASSUMPTIONS
+    return ob.done(cases=total)
